@@ -10,7 +10,8 @@
  *     k<N>     raise signal N (default action)
  * followed by flags: r = read stdin to the end and report the bytes; w = write "OUT" to fd 1 and
  * "ERR" to fd 2; c = copy stdin to stdout until end-of-file ("ERRMARK\n" on stderr first,
- * "ERR:<bytes>\n" last), reporting byte count and an order-sensitive checksum.
+ * "ERR:<bytes>\n" last), reporting byte count and an order-sensitive checksum; s = after the dump
+ * stop (SIGSTOP) and be continued 150 ms later by a grandchild, then end as the name says.
  * Static, no libc start-up dependence on the environment.
  */
 #define _GNU_SOURCE
@@ -21,6 +22,7 @@
 #include <stdio.h>
 #include <stdlib.h>
 #include <string.h>
+#include <time.h>
 #include <unistd.h>
 #include <sys/stat.h>
 
@@ -184,6 +186,22 @@ int main(int argc, char **argv, char **envp)
     fclose(f);
     rename(tmp, out);
 
+    if (strchr(fl, 's')) {
+        /* stops itself; a grandchild continues it 150 ms later (the caller's wait must sleep through
+         * the stop, try_wait must say "still running"), then it ends as its name says */
+        pid_t me = getpid();
+        pid_t g = fork();
+        if (g == 0) {
+            struct timespec ts = {0, 150 * 1000 * 1000};
+            for (int fd = 0; fd < 64; fd++)
+                close(fd);
+            nanosleep(&ts, NULL);
+            kill(me, SIGCONT);
+            _exit(0);
+        }
+        signal(SIGCHLD, SIG_IGN);   /* the grandchild is nobody's zombie */
+        raise(SIGSTOP);
+    }
     int code = atoi(base + 1);
     if (base[0] == 'k') {
         signal(code, SIG_DFL);
